@@ -102,6 +102,7 @@ type Driver struct {
 	gidInst  map[uint64]int // goroutine -> instance it was last seen working for
 	rJitInst map[int]*Rng
 	parked   map[*yieldReq]bool
+	nParked  int // goroutines parked at a yield site (requested or accepted)
 	inflight map[*Op]bool
 	apiBusy  []int // per instance: API calls in progress
 	apiSeq   int
@@ -351,6 +352,7 @@ func (d *Driver) drainInbox() {
 			d.push(d.lastNow+y.d, "yield", func() {
 				d.mu.Lock()
 				delete(d.parked, y)
+				d.nParked--
 				if in := d.inst(y.inst); in != nil {
 					in.parkedYields--
 				}
@@ -699,8 +701,14 @@ func (d *Driver) finishOp(op *Op, resp opResp) {
 
 func (d *Driver) fireOpTrig(op *Op, phase string) {
 	acts := d.opTrig[[2]int{op.Inst, op.Nth}]
+	if op.NthKind != op.Nth {
+		acts = append(append([]*Action(nil), acts...), d.opTrig[[2]int{op.Inst, op.NthKind}]...)
+	}
 	for _, a := range acts {
 		if a.Phase != phase || d.firedAct[a] {
+			continue
+		}
+		if a.OpKind == "" && a.OpN != op.Nth || a.OpKind != "" && (a.OpKind != op.Kind || a.OpN != op.NthKind) {
 			continue
 		}
 		d.firedAct[a] = true
@@ -764,6 +772,7 @@ func (d *Driver) shutdown() {
 		sort.Slice(ys, func(i, j int) bool { return ys[i].n < ys[j].n })
 		for _, y := range ys {
 			delete(d.parked, y)
+			d.nParked--
 			if in := d.inst(y.inst); in != nil {
 				in.parkedYields--
 			}
